@@ -548,7 +548,6 @@ func runMemCase(r *hx.Run, sub uint64, rng *hx.Rng, lines []string) {
 		r.Count("mem-op:" + strings.Fields(line)[1])
 		for ; reported < len(w.fails); reported++ {
 			fl := w.fails[reported]
-			r.Count("finding:memory-stream:" + fl.oracle)
 			r.Fail(fl.oracle, fl.detail+fmt.Sprintf("; history: %v", r.CaseLines()), map[string]string{"stream": "memory", "oracle": fl.oracle, "op": fl.op})
 		}
 	}
